@@ -79,6 +79,8 @@ def _snapshot_writes(before, after, ex=None):
             if k not in b or b[k] is not v:
                 w.add(('fld', (oid, k)))
     for g, v in after.ghost.items():
+        if g.startswith('__'):
+            continue          # bookkeeping of the executor (list versions, registries), not program state
         if g not in before.ghost or before.ghost[g] is not v:
             w.add(('ghost', g))
     chk = getattr(ex, 'list_semantically_changed', None)
